@@ -69,7 +69,18 @@ def make_app_json():
         __namespace__ = 'tns'
         _type_info = [('b', Point.customize(pa={JsonDocument: dict(order=1)})), ('a', Point.customize(pa={JsonDocument: dict(order=0)}))]
 
+    class Cred(ComplexModel):
+        __namespace__ = 'tns'
+        # `secret` is excluded from what the JSON protocol WRITES; it is an ordinary member for the protocol that reads requests
+        _type_info = [('user', Unicode), ('secret', Unicode(pa={JsonDocument: dict(exc=True)}))]
+
     class S(Service):
+        @srpc(Cred, _returns=Cred)
+        def reg(c): return Cred(user=c.user, secret=c.secret)
+
+        @srpc(Cred, _returns=Unicode)
+        def chk(c): return u'%s sent %s' % (c.user, 'no secret' if c.secret is None else 'a secret of %d characters' % len(c.secret))
+
         @srpc(Integer, _returns=Point)
         def pt(n): return Point(label=u'p%d' % n, x=n, y=n * 10)
 
@@ -99,6 +110,31 @@ def make_app_xml():
     return Application([S], 'tns', name='App3', in_protocol=XmlDocument(validator='soft'), out_protocol=XmlDocument())
 
 
+def make_app_jx():
+    """Fourth application: reads JSON, answers XML; a member customized for ONE of the two protocols (left out of what
+    XmlDocument writes) is an ordinary member for the other."""
+    from spyne import Application, Service, srpc, Unicode, ComplexModel
+    from spyne.protocol.json import JsonDocument
+    from spyne.protocol.xml import XmlDocument
+
+    class Account(ComplexModel):
+        __namespace__ = 'tns'
+        _type_info = [('name', Unicode), ('secret', Unicode(pa={XmlDocument: dict(exc=True)}))]
+
+    class S(Service):
+        @srpc(Account, _returns=Account)
+        def register(a): return a
+
+        @srpc(Account, _returns=Unicode)
+        def check(a): return u'%s sent %s' % (a.name, 'no secret' if a.secret is None else 'a secret of %d characters' % len(a.secret))
+    return Application([S], 'tns', name='App4', in_protocol=JsonDocument(validator='soft'), out_protocol=XmlDocument())
+
+
+JX_REQS = {
+    'jreg': ('application/json', b'{"register": {"a": {"name": "ann", "secret": "opensesame"}}}'),
+    'jchk1': ('application/json', b'{"check": {"a": {"name": "bob", "secret": "hunter2"}}}'),
+    'jchk2': ('application/json', b'{"check": {"a": {"name": "eve", "secret": "12345"}}}'),
+}
 # name -> (content type, body bytes)
 XML_REQS = {
     'lat': ('text/xml; charset=iso-8859-1', u'<tns:echo xmlns:tns="tns"><tns:s>caf\xe9 \xfcber</tns:s></tns:echo>'.encode('latin-1')),
@@ -107,7 +143,9 @@ XML_REQS = {
     'utf16': ('text/xml; charset=utf-16', u'<tns:echo xmlns:tns="tns"><tns:s>caf\xe9</tns:s></tns:echo>'.encode('utf-16')),
 }
 JSON_REQS = {'pt': ('/pt', 'n=3'), 'pt2': ('/pt', 'n=4'), 'seg': ('/seg', 'n=5'), 'pts': ('/pts', 'n=6'),
-             'tag1': ('/tag', 'v=one'), 'tag2': ('/tag', 'v=two')}
+             'tag1': ('/tag', 'v=one'), 'tag2': ('/tag', 'v=two'),
+             'reg': ('/reg', 'c.user=ann&c.secret=opensesame'), 'chk1': ('/chk', 'c.user=bob&c.secret=hunter2'),
+             'chk2': ('/chk', 'c.user=eve&c.secret=12345')}
 
 
 REQS = {
@@ -118,8 +156,8 @@ REQS = {
 
 
 def env_for(name):
-    if name in XML_REQS:
-        ct, body = XML_REQS[name]
+    if name in XML_REQS or name in JX_REQS:
+        ct, body = (XML_REQS if name in XML_REQS else JX_REQS)[name]
         return {'REQUEST_METHOD': 'POST', 'PATH_INFO': '/', 'QUERY_STRING': '', 'CONTENT_TYPE': ct,
                 'wsgi.input': io.BytesIO(body), 'wsgi.url_scheme': 'http', 'SERVER_NAME': 'x', 'SERVER_PORT': '80',
                 'CONTENT_LENGTH': str(len(body))}
